@@ -13,6 +13,7 @@ import (
 	"os"
 	"reflect"
 	"sort"
+	"strconv"
 	"strings"
 	"sync/atomic"
 	"testing/iotest"
@@ -1083,6 +1084,22 @@ func doCall(ctx context.Context, c *api.Client, rec *CallRecord) {
 		}
 		if r.coin() {
 			params.Cnum.SetTo(r.intn(1 << 30))
+		}
+		if r.coin() {
+			params.Link.SetTo(url.URL{Scheme: "https", Host: "h" + strconv.Itoa(r.intn(1000)) + ".test", Path: "/p/" + strconv.Itoa(r.intn(1000)), RawQuery: "a=1&b=x+y"})
+		}
+		if r.coin() {
+			params.At.SetTo(time.Date([]int{1, 1969, 2001, 2038, 2300, 9999}[r.intn(6)], time.Month(1+r.intn(12)), 1+r.intn(28), r.intn(24), r.intn(60), r.intn(60), 0, time.UTC))
+		}
+		if r.coin() {
+			params.Addr.SetTo(netip.AddrFrom4([4]byte{byte(1 + r.intn(200)), byte(r.intn(256)), byte(r.intn(256)), byte(1 + r.intn(200))}))
+		}
+		if r.coin() {
+			params.Dur.SetTo(time.Duration(1+r.intn(100000)) * time.Second)
+		}
+		if r.coin() {
+			// any finite number: the text form must carry every digit
+			params.Big.SetTo([]float64{0.1 + 0.2, 1e-11, 123456789.12345679, -1.7976931348623157e308, 5e-324, float64(r.intn(1<<30)) / 3}[r.intn(6)])
 		}
 		expParams := params
 		if !expParams.N32.Set {
